@@ -148,6 +148,9 @@ func parenC03(c *Ctx, tt *tokenTable) {
 	}
 	parenPrintC03(c)
 	binPrintC03(c, "C03.binprint")
+	// the grouping a text denotes survives printing only if every operand
+	// position holds a single operand
+	operandShapeRule(c, "C03.operandshape")
 	c.Rule("C03.pure", "the package-level parse functions (ParseExpr, ParseStatement, ParseQuery and their Must forms) read no mutable package-level state: the tree a text denotes does not depend on texts parsed before, and two calls never hand out the same tree (a memo of parsed expressions returns a tree that an earlier caller may have rewritten, e.g. stripped of its parentheses)")
 	pureRule(c, "C03.pure", "ParseExpr", "ParseStatement", "ParseQuery", "MustParseExpr", "MustParseStatement")
 	// --- regex rhs ---
